@@ -95,7 +95,7 @@ def _counter(cap, funcs, edges):
 _MON_TOOL = None
 
 
-def _observe_setprofile(run, on_call, want_frames):
+def _observe_setprofile(run, on_call, want_frames, fast=None):
     """Reference implementation: sys.setprofile, `call` events."""
     hit = _CODE_HIT
 
@@ -115,7 +115,7 @@ def _observe_setprofile(run, on_call, want_frames):
         sys.setprofile(None)
 
 
-def _observe_monitoring(run, on_call, want_frames):
+def _observe_monitoring(run, on_call, want_frames, fast=None):
     """Same events through sys.monitoring (3.12+): PY_START of the counted code
     objects only - code outside the three files is switched off at its first
     event, and there are no return / C-call events at all, which makes this
@@ -133,6 +133,20 @@ def _observe_monitoring(run, on_call, want_frames):
         if not h:
             return DISABLE
         on_call(code, getframe(1) if want_frames else None)
+
+    if fast is not None:
+        # plain counting: one Python frame per event instead of two
+        limit, box = fast
+
+        def cb(code, offset):  # noqa: F811
+            h = hit.get(code)
+            if h is None:
+                h = hit[code] = _is_counted(code)
+            if not h:
+                return DISABLE
+            box[0] += 1
+            if box[0] > limit:
+                raise StepCap()
 
     global _MON_TOOL
     if _MON_TOOL is None:
@@ -177,13 +191,18 @@ def measure(text, cap=None, funcs=None, edges=None, method=None):
     observe = _observe_monitoring if method == "monitoring" else _observe_setprofile
     parser = CParser()
     on_call, get_n = _counter(cap, funcs, edges)
+    fast = None
+    if method == "monitoring" and funcs is None and edges is None:
+        box = [0]
+        fast = (cap if cap is not None else 1 << 62, box)
+        get_n = lambda: box[0]  # noqa: E731
 
     out = "ok"
     # the cyclic collector only adds (load-dependent) time: ASTs are acyclic
     gc_was = gc.isenabled()
     gc.disable()
     try:
-        observe(lambda: parser.parse(text), on_call, edges is not None)
+        observe(lambda: parser.parse(text), on_call, edges is not None, fast)
     except ParseError as e:
         out = "perr:" + str(e)[:120]
     except RecursionError:
